@@ -2,11 +2,9 @@ import Ecal.Model.Eval
 /-!
 C05 additions to the evaluator model (owner: C05; `Model/Eval.lean` is imported, not edited).
 
-* `callFrame` — the scope part of `function.Run` (rt_func.go) factored out of the mutual block of
-  `Ecal.Ev.runFunction`: fresh root scope `func: <name>`, parameters bound in order (missing ⇒ default
-  or null, extra ignored), THEN the parent link to the declaration scope.  `Props/C05.lean` proves the
-  frame facts about it; `framesOk` re-checks them on the final state of every program the driver
-  runs, i.e. on the frames `runFunction` really built.
+* `framesOk` — re-checks on the final state of every program the driver runs that the frames
+  `runFunction` built have the shape `Ecal.Ev.buildFrame` (Model/Eval.lean, called by `runFunction`) is
+  proved to produce: `this` / `super` / the parameters first, linked to the declaration scope.
 * `evalTop` — evaluation of a top-level tree.
 -/
 namespace Ecal.Obj
@@ -38,50 +36,15 @@ def paramsOf (decl : Node) : List Param :=
       | none => none
   | _ => []
 
-/-- the value a parameter receives: the argument at its position, else its default (evaluated by
-    `evalDefault`, which the evaluator instantiates with evaluation in the CALLER's scope), else null -/
-def paramValue (evalDefault : Node → M Val) (p : Param) (i : Nat) (args : List Val) : M Val :=
-  match args[i]? with
-  | some a => pure a
-  | none =>
-    match p.dflt with
-    | some d => evalDefault d
-    | none => pure Val.null
-
-/-- bind the parameters from position `i` on in the (still parentless) frame -/
-def bindParams (evalDefault : Node → M Val) (fvs : Nat) : List Param → Nat → List Val → M Unit
-  | [], _, _ => pure ()
-  | p :: ps, i, args => do
-    let v ← paramValue evalDefault p i args
-    setValue fvs p.name v
-    bindParams evalDefault fvs ps (i + 1) args
-
 /-- the context variables of a bound function: `this`, then `super` (only those that are present) -/
-def thisName : List Nat := [116, 104, 105, 115]          -- "this"
-def superName : List Nat := [115, 117, 112, 101, 114]    -- "super"
 def contextVars (this super : Option Val) : List (List Nat × Val) :=
   (match this with | some t => [(thisName, t)] | none => []) ++
   (match super with | some s => [(superName, s)] | none => [])
 
-def setAll (fvs : Nat) : List (List Nat × Val) → M Unit
-  | [] => pure ()
-  | (n, v) :: rest => do setValue fvs n v; setAll fvs rest
-
-/-- function.Run up to the evaluation of the body: fresh root scope, `this` / `super`, the parameters,
-    and only then the link to the declaration scope; returns the frame -/
-def callFrame (evalDefault : Node → M Val) (name : String) (declScope : Nat) (this super : Option Val)
-    (params : List Param) (args : List Val) : M Nat := do
-  let fvs ← newScope s!"func: {name}"
-  setAll fvs (contextVars this super)
-  bindParams evalDefault fvs params 0 args
-  let s ← getScope fvs
-  setScope fvs { s with parent := some declScope }
-  pure fvs
-
 def dedup (l : List String) : List String :=
   l.foldl (fun acc x => if acc.contains x then acc else acc ++ [x]) []
 
-/-- every function frame of the state was built the way `callFrame` builds it: it hangs under the
+/-- every function frame of the state was built the way `Ecal.Ev.buildFrame` builds it: it hangs under the
     declaration scope of a function of that name (or is still unlinked: a default raised an error) and
     its first variables are `this` / `super` (for a bound function) and that function's parameters, in
     order -/
